@@ -150,6 +150,10 @@ class CompressedSerde:
 
         if len(value) > self._min_compress_len > 0:
             old_value = value
+            if isinstance(value, str):
+                # The wrapped serde may return text (the decimal form of an
+                # int); compressors need bytes.
+                value = value.encode("utf8")
             value = self._compress(value)
             # Don't use the compressed value if our end result is actually
             # larger uncompressed.
